@@ -284,8 +284,9 @@ def check_case(ctx, case, real, replies):
   rec = dict(case, w=[[Fraction(float(v)) for v in row] for row in wf], kind="replay" if case["kind"] == "twice" else case["kind"])
   expect_reject = cfg["mono"] == 0 and (eff_cmin or eff_cmax)
   if err is not None and err.startswith("build:"):
-    # since fix a22154b/35f6090 the LAYER rejects an effective clamp on a non-monotonic calibrator at
-    # construction (C16's subject); the constraint object still rejects it when applied
+    # an effective clamp on a non-monotonic calibrator is rejected by the constraint object when applied;
+    # a rejection already at layer construction (tried in a22154b/35f6090, taken back by 0029d95 — C16's
+    # subject, F-C16-m) counts as the same expected rejection
     if expect_reject and err == "build:ERR ValueError":
       err = "ERR ValueError"
   if err is not None:
